@@ -7,14 +7,22 @@
 //!        a synthetic TrueType font (empty glyphs) around the cmap table, subset::subset (u) or
 //!        subset::prince::subset(.., PrinceCmapTarget::MacRoman, ..) (m); the cmap table of the output
 //!        and what allsorts' own reader returns on its selected sub-table for every probe code
+//!        For a Unicode or Big5 source the result ends with `;fl=<u>:<source glyph>:<subset glyph>,...`:
+//!        Font::lookup_glyph_index of the source font and of the subset font, for every probe that is a
+//!        scalar value and, for a Big5 source, for every character a sweep of the source sub-table
+//!        (map_glyph over all 16 bit codes, decoded with allsorts::big5) or of the output sub-table
+//!        (map_glyph over every code) finds mapped; `;nrt=<n>` = number of mapped Big5 source codes that
+//!        are not the code unicode_to_big5 gives their character (aliases, HKSCS area).
 //!   os2: - = no OS/2 table, x = truncated OS/2 table, N = usFirstCharIndex
+use allsorts::big5::{big5_to_unicode, unicode_to_big5};
 use allsorts::binary::read::ReadScope;
 use allsorts::error::{ParseError, WriteError};
-use allsorts::font::{find_good_cmap_subtable, Encoding};
+use allsorts::font::{find_good_cmap_subtable, Encoding, MatchingPresentation};
+use allsorts::macroman::macroman_to_char;
 use allsorts::subset::{self, SubsetError};
 use allsorts::tables::cmap::{Cmap, CmapSubtable};
 use allsorts::tables::{FontTableProvider, OpenTypeFont};
-use allsorts::tag;
+use allsorts::{tag, Font};
 use allsorts::verif::cmap_subset::{cmap_from_pairs, mappings_to_keep, HookError};
 use avh::prng::{hex, unhex, Rng};
 use avh::{harness_main, perr};
@@ -198,13 +206,124 @@ fn run_end_to_end(cmap: &[u8], os2: &str, n: u16, target: &str, ids: &[u16], pro
                 _ => "0".to_string(),
             })
             .collect();
-        Ok(format!("ok:{};enc={};g={}", hex(&cmap_data), enc_name(enc), g.join(",")))
+        let fl = font_level(cmap, os2, n, file.table_provider(0)?, enc, &st, probes);
+        Ok(format!("ok:{};enc={};g={}{}", hex(&cmap_data), enc_name(enc), g.join(","), fl))
     }));
     match read {
         Err(_) => "readback:p".to_string(),
         Ok(Err(e)) => format!("readback:e{}", perr(&e)),
         Ok(Ok(s)) => s,
     }
+}
+
+/// `;fl=..` (and `;nrt=..`): Font::lookup_glyph_index on the source font and on the subset font.
+/// Only for sources whose selected sub-table is Unicode or Big5 (for Mac Roman / Symbol sources the
+/// Font level adds the legacy symbol path and the OS/2 table the subsetter drops: judged by code).
+fn font_level(
+    cmap: &[u8],
+    os2: &str,
+    n: u16,
+    out_provider: impl FontTableProvider,
+    out_enc: Encoding,
+    out_st: &CmapSubtable<'_>,
+    probes: &[u32],
+) -> String {
+    let src_cmap = match ReadScope::new(cmap).read::<Cmap<'_>>() {
+        Ok(c) => c,
+        Err(_) => return String::new(),
+    };
+    let (src_enc, src_rec) = match find_good_cmap_subtable(&src_cmap) {
+        Some(x) => x,
+        None => return String::new(),
+    };
+    if src_enc != Encoding::Unicode && src_enc != Encoding::Big5 {
+        return String::new();
+    }
+    // format 2 source: a two byte code whose first byte is not a lead byte (subHeaderKey 0) and a lead byte
+    // used as a one byte code are not codes of the table (mappings_fn does not enumerate them, map_glyph
+    // answers with the sub-header 0 entry of the low byte): they count as unmapped, source glyph 0
+    let so = src_rec.offset as usize;
+    let is_f2 = cmap.len() >= so + 6 + 512 && cmap[so] == 0 && cmap[so + 1] == 2;
+    let lead = |hb: u32| -> bool {
+        let at = so + 6 + 2 * hb as usize;
+        u16::from_be_bytes([cmap[at], cmap[at + 1]]) / 8 != 0
+    };
+    let improper = |c: u32| -> bool {
+        is_f2 && (c > 0xFFFF || if c < 0x100 { lead(c) } else { !lead(c >> 8) })
+    };
+    let src_code = |u: char| -> Option<u32> {
+        if src_enc == Encoding::Big5 {
+            unicode_to_big5(u).map(u32::from)
+        } else {
+            Some(u as u32)
+        }
+    };
+    let mut chars: Vec<u32> = probes.iter().copied().filter(|p| char::from_u32(*p).is_some()).collect();
+    let mut nrt = 0usize;
+    if src_enc == Encoding::Big5 {
+        // every character the source sub-table maps (lookups, not the enumeration the subsetter uses)
+        if let Ok(src_st) = src_cmap.scope.offset(src_rec.offset as usize).read::<CmapSubtable<'_>>() {
+            for c in 0..=0xFFFFu32 {
+                if let Ok(Some(g)) = src_st.map_glyph(c) {
+                    if g != 0 && !improper(c) {
+                        match big5_to_unicode(c as u16) {
+                            Some(u) => {
+                                chars.push(u as u32);
+                                if unicode_to_big5(u) != Some(c as u16) {
+                                    nrt += 1;
+                                }
+                            }
+                            None => nrt += 1,
+                        }
+                    }
+                }
+            }
+        }
+        // every character the output sub-table maps
+        match out_enc {
+            Encoding::AppleRoman => {
+                for b in 0..=255u8 {
+                    if let (Ok(Some(g)), Some(u)) = (out_st.map_glyph(u32::from(b)), macroman_to_char(b)) {
+                        if g != 0 {
+                            chars.push(u as u32);
+                        }
+                    }
+                }
+            }
+            _ => {
+                let hi = if matches!(out_st, CmapSubtable::Format12 { .. }) { 0x30000u32 } else { 0x10000 };
+                for c in 0..hi {
+                    if let Ok(Some(g)) = out_st.map_glyph(c) {
+                        if g != 0 && char::from_u32(c).is_some() {
+                            chars.push(c);
+                        }
+                    }
+                }
+            }
+        }
+    }
+    chars.sort();
+    chars.dedup();
+    let mut src_font = match Font::new(synthetic_font(cmap, os2, n)) {
+        Ok(f) => f,
+        Err(e) => return format!(";fl=srcfont:e{}", perr(&e)),
+    };
+    let mut out_font = match Font::new(out_provider) {
+        Ok(f) => f,
+        Err(e) => return format!(";fl=outfont:e{}", perr(&e)),
+    };
+    let items: Vec<String> = chars
+        .iter()
+        .map(|&u| {
+            let ch = char::from_u32(u).unwrap();
+            let (sg, _) = src_font.lookup_glyph_index(ch, MatchingPresentation::NotRequired, None);
+            let sg = if src_code(ch).map_or(false, improper) { 0 } else { sg };
+            let (og, _) = out_font.lookup_glyph_index(ch, MatchingPresentation::NotRequired, None);
+            format!("{}:{}:{}", u, sg, og)
+        })
+        .collect();
+    let nrt_s = if src_enc == Encoding::Big5 { format!(";nrt={}", nrt) } else { String::new() };
+    format!("{};fl={}", nrt_s, if items.is_empty() { "-".to_string() } else { items.join(",") })
 }
 
 fn run(input: &str) -> String {
@@ -250,6 +369,58 @@ enum Kind {
     Astral,
     SymbolHigh,
     SymbolLow,
+    /// Big5 codes (platform 3 encoding 4): ASCII single bytes and two byte codes
+    Big5,
+}
+
+/// a Big5 code the Font level can see: its character encodes back to the same code
+fn big5_roundtrips(c: u32) -> bool {
+    match big5_to_unicode(c as u16) {
+        Some(u) => unicode_to_big5(u) == Some(c as u16),
+        None => false,
+    }
+}
+
+/// Big5 codes: some ASCII bytes and clusters of trail bytes (runs and gaps) under a few lead bytes
+fn gen_big5_codes(rng: &mut Rng, count: usize) -> Vec<u32> {
+    let mut set = std::collections::BTreeSet::new();
+    let nsingle = if rng.chance(1, 4) { 0 } else { rng.below((count as u64).min(12) + 1) as usize };
+    for _ in 0..nsingle {
+        set.insert(0x20 + rng.below(0x5F) as u32);
+    }
+    let nleads = 1 + rng.below(4) as usize;
+    for _ in 0..nleads {
+        let lead: u32 = match rng.below(6) {
+            0 => 0xA1 + rng.below(3) as u32,  // symbols
+            1 => 0xC9 + rng.below(0x31) as u32, // level 2 hanzi
+            _ => 0xA4 + rng.below(0x22) as u32, // frequently used hanzi
+        };
+        let mut low: u32 = match rng.below(4) {
+            0 => 0x40,
+            1 => 0xA1,
+            _ => 0x40 + rng.below(0x30) as u32,
+        };
+        let per = 1 + count / nleads;
+        let mut n = 0;
+        while n < per && low <= 0xFE {
+            let run = 1 + rng.below(5) as u32;
+            for _ in 0..run {
+                let trail_ok = (0x40..=0x7E).contains(&low) || (0xA1..=0xFE).contains(&low);
+                if trail_ok && n < per {
+                    set.insert((lead << 8) | low);
+                    n += 1;
+                }
+                low += 1;
+            }
+            low += match rng.below(4) {
+                0 => 0,
+                1 => 1,
+                2 => 2 + rng.below(3) as u32,
+                _ => 1 + rng.below(0x30) as u32,
+            };
+        }
+    }
+    set.into_iter().filter(|c| big5_roundtrips(*c)).take(count.max(1)).collect()
 }
 
 /// a sorted set of codes with the gap structure the format 4 builder is sensitive to
@@ -410,6 +581,129 @@ fn render_format4(rng: &mut Rng, m: &[(u32, u32)]) -> Vec<u8> {
     v
 }
 
+/// render a sorted mapping (codes up to 0xFFFF) as a format 2 sub-table.  Codes below 0x100 are single
+/// bytes in sub-header 0, the others two byte codes under their lead byte (a single byte code that is also a
+/// lead byte is dropped: returned mapping).  Every sub-header range may be wider than the codes it
+/// holds (holes = glyphIndexArray entries 0, before, between and after), idDelta is 0, random, or ON PURPOSE the
+/// id of a glyph of the font (so that "0 is the missing glyph, not idDelta" matters), lead bytes
+/// sometimes share one sub-header.  Returns the table, the mapping it holds and the codes of its holes.
+fn render_format2(rng: &mut Rng, m: &[(u32, u32)], num_glyphs: u32, share: bool) -> (Vec<u8>, Vec<(u32, u32)>, Vec<u32>) {
+    use std::collections::BTreeMap;
+    let mut pages: BTreeMap<u32, Vec<(u32, u32)>> = BTreeMap::new();
+    for &(c, g) in m.iter().filter(|p| p.0 >= 0x100 && p.0 <= 0xFFFF) {
+        pages.entry(c >> 8).or_default().push((c & 0xFF, g));
+    }
+    let singles: Vec<(u32, u32)> =
+        m.iter().copied().filter(|p| p.0 < 0x100 && !pages.contains_key(&p.0)).collect();
+    // the entries of one sub-header: (first, array of final glyph ids, 0 = hole)
+    let layout = |rng: &mut Rng, codes: &[(u32, u32)], wide: bool| -> (u32, Vec<u32>) {
+        if codes.is_empty() {
+            return (rng.below(0x100) as u32, vec![]);
+        }
+        let lo = codes.first().unwrap().0;
+        let hi = codes.last().unwrap().0;
+        let before = if wide { lo } else { rng.below(4).min(lo as u64) as u32 };
+        let after = if wide { 0xFF - hi } else { rng.below(4).min((0xFF - hi) as u64) as u32 };
+        let first = lo - before;
+        let mut arr = vec![0u32; (hi + after - first + 1) as usize];
+        for &(c, g) in codes {
+            arr[(c - first) as usize] = g;
+        }
+        (first, arr)
+    };
+    let mut subs: Vec<(u32, Vec<u32>)> = vec![];
+    let wide0 = rng.chance(1, 3);
+    subs.push(layout(rng, &singles, wide0));
+    let mut keys = vec![0u32; 256];
+    let mut held: Vec<(u32, u32)> = singles.clone();
+    let mut prev_lead: Option<(u32, usize)> = None;
+    for (&lead, codes) in &pages {
+        // share the sub-header of the previous lead byte: same trail bytes, same glyphs
+        if let Some((_, k)) = prev_lead {
+            if share && rng.chance(1, 6) {
+                keys[lead as usize] = 8 * k as u32;
+                let (first, arr) = &subs[k];
+                for (i, &g) in arr.iter().enumerate() {
+                    if g != 0 {
+                        held.push(((lead << 8) | (first + i as u32), g));
+                    }
+                }
+                continue;
+            }
+        }
+        let wide = rng.chance(1, 8);
+        subs.push(layout(rng, codes, wide));
+        keys[lead as usize] = 8 * (subs.len() as u32 - 1);
+        prev_lead = Some((lead, subs.len() - 1));
+        for &(l, g) in codes {
+            held.push(((lead << 8) | l, g));
+        }
+    }
+    held.sort();
+    // holes: every code of a sub-header range without a glyph
+    let mut holes = vec![];
+    for hb in 0..256u32 {
+        let k = (keys[hb as usize] / 8) as usize;
+        let (first, arr) = &subs[k];
+        for (i, &g) in arr.iter().enumerate() {
+            let low = first + i as u32;
+            if g == 0 && low <= 0xFF {
+                if k == 0 {
+                    if low == hb {
+                        holes.push(hb);
+                    }
+                } else {
+                    holes.push((hb << 8) | low);
+                }
+            }
+        }
+    }
+    // idDelta per sub-header; the stored word of a glyph must not be 0
+    let all_gids: Vec<u32> = m.iter().map(|p| p.1).collect();
+    let nsub = subs.len();
+    let mut v = vec![];
+    let glyph_words: usize = subs.iter().map(|s| s.1.len()).sum();
+    w16(&mut v, 2);
+    w16(&mut v, (6 + 512 + 8 * nsub + 2 * glyph_words) as u32);
+    w16(&mut v, 0);
+    for &k in &keys {
+        w16(&mut v, k);
+    }
+    let mut at = 0usize;
+    let mut words: Vec<u32> = vec![];
+    for (k, (first, arr)) in subs.iter().enumerate() {
+        let mut delta: u32 = match rng.below(8) {
+            0 | 1 => 0,
+            2 => 0xFFFF,
+            3 => rng.below(0x10000) as u32,
+            4 => 1 + rng.below(num_glyphs.max(2) as u64 - 1) as u32,
+            _ => {
+                if all_gids.is_empty() {
+                    1
+                } else {
+                    *rng.pick(&all_gids)
+                }
+            }
+        };
+        if arr.iter().any(|&g| g != 0 && g == delta) {
+            delta = if arr.iter().any(|&g| g == 1) { 0 } else { 1 };
+        }
+        w16(&mut v, *first);
+        w16(&mut v, arr.len() as u32);
+        w16(&mut v, delta);
+        // idRangeOffset is relative to its own position: 2 bytes before the end of sub-header k
+        w16(&mut v, (8 * (nsub - k) - 6 + 2 * at) as u32);
+        for &g in arr {
+            words.push(if g == 0 { 0 } else { (0x10000 + g - delta) & 0xFFFF });
+        }
+        at += arr.len();
+    }
+    for &w in &words {
+        w16(&mut v, w);
+    }
+    (v, held, holes)
+}
+
 fn render_format12(rng: &mut Rng, m: &[(u32, u32)]) -> Vec<u8> {
     let mut groups: Vec<(u32, u32, u32)> = vec![];
     for &(c, g) in m {
@@ -477,6 +771,8 @@ struct Source {
     codes: Vec<u32>, // codes of the selected sub-table (in its own code space)
     gids: Vec<u32>,
     kind: Kind,
+    /// codes inside the ranges of the selected sub-table that have no glyph (format 2 holes)
+    holes: Vec<u32>,
 }
 
 /// the Mac Roman byte of a character of MACROMAN / ASCII
@@ -489,13 +785,19 @@ fn macroman_byte(c: u32) -> u32 {
 }
 
 fn gen_source(rng: &mut Rng) -> Source {
-    let kind = *rng.pick(&[Kind::MacRoman, Kind::MacRoman, Kind::Bmp, Kind::Bmp, Kind::Bmp, Kind::Astral, Kind::Astral, Kind::SymbolHigh, Kind::SymbolLow]);
+    let kind = *rng.pick(&[
+        Kind::MacRoman, Kind::MacRoman, Kind::Bmp, Kind::Bmp, Kind::Bmp, Kind::Astral, Kind::Astral, Kind::SymbolHigh,
+        Kind::SymbolLow, Kind::Big5, Kind::Big5,
+    ]);
     let big = rng.chance(1, 12);
     let count = if big { 260 + rng.below(400) as usize } else { rng.below(40) as usize };
     let num_glyphs: u32 = if big { 300 + rng.below(1500) as u32 } else { 2 + rng.below(400) as u32 };
-    let codes = gen_codes(rng, kind, count);
+    let codes = if kind == Kind::Big5 { gen_big5_codes(rng, count) } else { gen_codes(rng, kind, count) };
     let gids = gen_gids(rng, codes.len(), num_glyphs.max(2));
     let m: Vec<(u32, u32)> = codes.iter().copied().zip(gids.iter().copied()).collect();
+    // format 2 (single bytes + lead byte pages) instead of the usual format of the encoding
+    let f2 = rng.chance(1, 4) && m.iter().all(|p| p.0 <= 0xFFFF);
+    let mut held: Option<(Vec<(u32, u32)>, Vec<u32>)> = None;
     // the encoding record that will be selected, and how the characters are stored in it
     let (pl, en, sub): (u32, u32, Vec<u8>) = match kind {
         Kind::MacRoman => {
@@ -503,15 +805,31 @@ fn gen_source(rng: &mut Rng) -> Source {
                 // a Mac Roman sub-table: codes are bytes
                 let mut bm: Vec<(u32, u32)> = m.iter().map(|&(c, g)| (macroman_byte(c), g)).collect();
                 bm.sort();
-                (1, 0, render_byte_table(rng, &bm))
+                if f2 {
+                    let (t, h, holes) = render_format2(rng, &bm, num_glyphs, false);
+                    held = Some((h, holes));
+                    (1, 0, t)
+                } else {
+                    (1, 0, render_byte_table(rng, &bm))
+                }
             } else {
                 let (pl, en) = *rng.pick(&[(3u32, 1u32), (0, 3)]);
-                (pl, en, render_format4(rng, &m))
+                if f2 {
+                    let (t, h, holes) = render_format2(rng, &m, num_glyphs, true);
+                    held = Some((h, holes));
+                    (pl, en, t)
+                } else {
+                    (pl, en, render_format4(rng, &m))
+                }
             }
         }
         Kind::Bmp => {
             let (pl, en) = *rng.pick(&[(3u32, 1u32), (0, 3), (0, 4), (3, 10)]);
-            if en == 4 || en == 10 {
+            if f2 {
+                let (t, h, holes) = render_format2(rng, &m, num_glyphs, true);
+                held = Some((h, holes));
+                (pl, en, t)
+            } else if en == 4 || en == 10 {
                 (pl, en, render_format12(rng, &m))
             } else {
                 (pl, en, render_format4(rng, &m))
@@ -521,16 +839,48 @@ fn gen_source(rng: &mut Rng) -> Source {
             let (pl, en) = *rng.pick(&[(3u32, 10u32), (0, 4)]);
             (pl, en, render_format12(rng, &m))
         }
-        Kind::SymbolHigh | Kind::SymbolLow => (3, 0, render_format4(rng, &m)),
+        Kind::SymbolHigh | Kind::SymbolLow => {
+            if f2 {
+                let (t, h, holes) = render_format2(rng, &m, num_glyphs, false);
+                held = Some((h, holes));
+                (3, 0, t)
+            } else {
+                (3, 0, render_format4(rng, &m))
+            }
+        }
+        Kind::Big5 => {
+            // format 2 is the format of Big5 fonts; format 4 with Big5 codes is allowed too
+            if rng.chance(3, 4) {
+                let (t, h, holes) = render_format2(rng, &m, num_glyphs, false);
+                held = Some((h, holes));
+                (3, 4, t)
+            } else {
+                (3, 4, render_format4(rng, &m))
+            }
+        }
     };
-    let codes_in_table: Vec<u32> = if pl == 1 { m.iter().map(|&(c, _)| macroman_byte(c)).collect() } else { codes.clone() };
+    let mut holes = vec![];
+    let (codes_in_table, gids): (Vec<u32>, Vec<u32>) = match held {
+        Some((h, hs)) => {
+            holes = hs;
+            (h.iter().map(|p| p.0).collect(), h.iter().map(|p| p.1).collect())
+        }
+        None => {
+            if pl == 1 {
+                (m.iter().map(|&(c, _)| macroman_byte(c)).collect(), gids)
+            } else {
+                (codes.clone(), gids)
+            }
+        }
+    };
     // optionally a second, lower priority record
     let mut recs: Vec<(u32, u32, usize)> = vec![(pl, en, 0)];
     let mut subs = vec![sub];
     if rng.chance(1, 4) && pl != 1 {
         let other: Vec<(u32, u32)> = (0..rng.below(6)).map(|i| (0x41 + i as u32, 1)).collect();
         subs.push(render_byte_table(rng, &other));
-        recs.push((1, 0, 1));
+        // Apple Roman is preferred to Big5: there the other record is Windows PRC, never selected
+        recs.push(if kind == Kind::Big5 { (3, 3, 1) } else { (1, 0, 1) });
     }
     recs.sort();
     let header = 4 + 8 * recs.len();
@@ -572,7 +922,7 @@ fn gen_source(rng: &mut Rng) -> Source {
             _ => "-".to_string(),
         },
     };
-    Source { cmap, os2, num_glyphs, codes: codes_in_table, gids, kind }
+    Source { cmap, os2, num_glyphs, codes: codes_in_table, gids, kind, holes }
 }
 
 fn join<T: ToString>(v: &[T]) -> String {
@@ -630,11 +980,26 @@ fn gen_e(rng: &mut Rng) -> String {
     let target = if rng.chance(1, 3) { "m" } else { "u" };
     // probes: output codes.  Characters of the source (as Unicode / byte / symbol code), neighbours, fixed points
     let mut probes: Vec<u32> = vec![];
+    // a Big5 source is read through its characters: the output is a Unicode (or Mac Roman) table
+    let big5 = src.kind == Kind::Big5;
+    let as_char = |c: u32| -> u32 {
+        if big5 && c <= 0xFFFF {
+            big5_to_unicode(c as u16).map_or(c, |u| u as u32)
+        } else {
+            c
+        }
+    };
+    // the holes of the source ranges first: characters the source does NOT map
+    let nh = src.holes.len();
+    for i in 0..nh.min(30) {
+        let h = if nh <= 30 { src.holes[i] } else { src.holes[rng.below(nh as u64) as usize] };
+        probes.push(as_char(h));
+    }
     for &c in src.codes.iter().take(60) {
-        probes.push(c);
+        probes.push(as_char(c));
         if rng.chance(1, 3) {
-            probes.push(c + 1);
-            probes.push(c.wrapping_sub(1));
+            probes.push(as_char(c + 1));
+            probes.push(as_char(c.wrapping_sub(1)));
         }
     }
     if src.kind == Kind::MacRoman || target == "m" {
